@@ -67,6 +67,10 @@ def render(doc):
         sepm = (nl + ",  // measure" + nl) if c.get("comments") else (nl + "," + nl)
         out.append(sepm.join(ms))
         out.append(";")
+    if doc.get("no_final_semicolon"):
+        # the last chart is closed by the end of the file (with or without a final newline)
+        out.pop()
+        return nl.join(out) + (nl if doc["no_final_semicolon"] == "newline" else "")
     return nl.join(out) + nl
 
 
